@@ -1138,13 +1138,14 @@ class C19(Prop):
                 hbroken += [f"{prod}: {b} (two-call: {sorted(k.split('.')[-1] for k, v in rep['two_call'].items())})" for b in sorted(bad)]
                 retained[prod] = [rep["params"][i][1] for i in rep["retained"] if rep["params"][i][0] == prod]
                 hunknown += [f"{prod}: {x}" for x in rep["diag"] if "UNKNOWN HISTORY" in x]
+            n_single = n
             n += hn
             ok += hok
         finally:
             d.close()
         return {"obligations": n, "discharged": ok,
                 "coverage": {"inventoried_functions": len(self.funcs()), "function_parameter_pairs": pairs,
-                             "function_parameter_obligations": n, "obligations_broken": broken[:50],
+                             "function_parameter_obligations": n_single, "obligations_broken": broken[:50],
                              "static_unproved_dynamic_only": unproved, "static_unproved_entries_not_needed": stale,
                              "translator_regression_cases": f"{nreg}, " + ("all as expected" if not reg_fail
                                                                             else f"{len(reg_fail)} FAILED"),
@@ -1161,9 +1162,14 @@ class C19(Prop):
     def targeted(self, tier):
         # call histories on one object: the static obligation of every producer (constructor / classmethod constructor)
         # first — the history programs are the largest analyses of the run, the workers share the results — the classes
-        # with the most members first
+        # costliest first
         hidx = self.history_index()
-        for prod in sorted(hidx, key=lambda q: (-len(hidx[q]["members"]) * (3 if "imzml" in q else 1), q)):
+        import json
+        funcs = self.funcs()
+
+        def cost(q):  # the producer's own program, run once, plus the members' programs in a loop
+            return len(json.dumps(funcs[q]["ir"])) + 3 * sum(len(json.dumps(funcs[m]["ir"])) for m in hidx[q]["members"] if m in funcs)
+        for prod in sorted(hidx, key=lambda q: (-cost(q) if q in funcs else 0, q)):
             yield {"hist": prod, "calls": [], "aseed": 0}
         # the translator's soundness / precision regression cases (harness/effects/tests): a failed one is a broken tie
         for cid in REG.all_ids():
@@ -1453,10 +1459,17 @@ class C19(Prop):
 
         inv, hidx = self.funcs(), self.history_index()
         prod, calls = case["hist"], list(case["calls"])
-        if prod not in hidx or prod not in inv or any(c not in inv or c not in hidx[prod]["members"] for c in calls):
+        if prod not in hidx or any(c not in hidx[prod]["members"] for c in calls):
             return outcome({"absent": True}, {"absent": True}, {"absent": True}, features=[])
         rep = self.history_report(prod, ctx.driver)
         broken = self.history_broken(rep)
+        if prod not in inv or any(c not in inv for c in calls):
+            # a producer / member the single-call inventory does not list (an inherited constructor): no argument factory,
+            # the static obligation of the history program still applies
+            obs = {"caller_owned_changed": [], "calls_made": 0}
+            return outcome(obs, {"history_write_outside_allowed": broken, "unpredicted": []}, obs, spec_ok=True,
+                           model_ok=not broken, features=["history:static-only"],
+                           note=f"history obligation broken: {broken}" if broken else "")
         predicted = {f"{o}({n})" for o, n in (rep["params"][i] for i in rep["write"])} | \
             ({f"{o}({n})" for o, n in rep["params"]} if rep["top"] else set())
         model = {"history_write_outside_allowed": broken}
